@@ -597,12 +597,19 @@ Proof. intros src st R. apply (reachable_inv _ _ R). Qed.
 Print Assumptions interp_depth_bounded.
 
 (* the bound is reached *)
+Fixpoint nsteps (n : nat) (st : sstate) : sstate :=
+  match n with O => st | S k => nsteps k (snd (scan_token st)) end.
+Lemma reachable_nsteps : forall src n st, reachable src st -> reachable src (nsteps n st).
+Proof.
+  intros src n. induction n as [|k IH]; intros st R; [exact R|]. cbn [nsteps]. apply IH.
+  destruct (scan_token st) as [t st'] eqn:E. eapply reach_step; [exact R|exact E].
+Qed.
 Example interp_depth_reached :
   exists st, reachable (bs """${""${""${""${""${""${""${""${") st /\ length (s_parens st) = 8.
 Proof.
-  eexists. split.
-  - do 8 (eapply reach_step; [|vm_compute; reflexivity]). apply reach_init.
-  - reflexivity.
+  exists (nsteps 8 (init_sstate (bs """${""${""${""${""${""${""${""${"))). split.
+  - apply reachable_nsteps. apply reach_init.
+  - vm_compute. reflexivity.
 Qed.
 
 (* ------------------------------------------------------------------ *)
@@ -644,7 +651,7 @@ Proof.
   assert (L1 : Nat.leb (clen (pre ++ ws)) (clen (pre ++ ws ++ m)) = true)
     by (apply Nat.leb_le; rewrite !clen_app; lia).
   assert (L2 : Nat.leb (clen (pre ++ ws ++ m)) (length src) = true).
-  { apply Nat.leb_le. rewrite Hsrc at 2. rewrite !app_length, !clen_app. unfold clen. rewrite concat_app, app_length. lia. }
+  { apply Nat.leb_le. rewrite Hsrc. rewrite !app_length, !clen_app. unfold clen. rewrite concat_app, app_length. lia. }
   rewrite L1, L2. cbn [andb]. f_equal.
   replace (clen (pre ++ ws ++ m) - clen (pre ++ ws)) with (length (concat m))
     by (rewrite !clen_app; unfold clen; lia).
@@ -721,8 +728,9 @@ Proof.
     destruct r1' as [|d r2]; [reflexivity|].
     destruct (is_digit d) eqn:Dd.
     + destruct (chars_of_ascii_cons d r2 (is_digit_ascii d Dd) V2) as [Ed2 V3]. rewrite Ed2.
-      cbn [chr_is is_digit_chr]. rewrite Dd. cbn [Byte.eqb andb].
-      rewrite <- Ed2. rewrite (span_digit_chrs_chars_of (d :: r2) V2).
+      cbn [chr_is is_digit_chr]. rewrite Dd.
+      change (Byte.eqb "." ".") with true. cbn [andb].
+      unfold chr in *. rewrite <- Ed2. rewrite (span_digit_chrs_chars_of (d :: r2) V2).
       destruct (span_digits (d :: r2)) as [fp r3]. reflexivity.
     + destruct (chars_of_head d r2) as [t [cs E]]. rewrite E.
       assert (Q : is_digit_chr (d :: t) = false) by (destruct t; cbn; [exact Dd|reflexivity]).
@@ -754,8 +762,10 @@ Proof.
   pose proof (number_tail_lex c r0 S V) as NT.
   assert (HL : fst (lex_number (c :: r0)) = c :: tl (fst (lex_number (c :: r0)))).
   { unfold lex_number. destruct (span_digits r0) as [ip r1].
-    destruct r1 as [|x [|d r2]]; try reflexivity.
-    destruct x; try reflexivity. destruct (is_digit d); [|reflexivity].
+    destruct r1 as [|x r1']; [reflexivity|].
+    destruct x; try reflexivity.
+    destruct r1' as [|d r2]; [reflexivity|].
+    destruct (is_digit d); [|reflexivity].
     destruct (span_digits (d :: r2)); reflexivity. }
   rewrite E. unfold scan_token, scan_token_start. cbn [s_rest s_pos s_line s_parens].
   assert (WS : skip_ws false ([c] :: chars_of r0) pos line = ([c] :: chars_of r0, pos, line)).
@@ -763,8 +773,9 @@ Proof.
     destruct c; try discriminate S; reflexivity. }
   rewrite WS. cbv zeta.
   assert (A : is_alpha [c] = false) by (unfold is_digit in S; destruct c; try discriminate S; reflexivity).
-  rewrite A. cbn [is_digit_chr]. rewrite S, NT. rewrite HL at 1.
-  f_equal. f_equal. rewrite HL at 2. cbn [length]. lia.
+  remember (tl (fst (lex_number (c :: r0)))) as tlx eqn:Etl.
+  rewrite A. cbn [is_digit_chr]. rewrite S, NT, HL. cbn [app length].
+  f_equal. f_equal. lia.
 Qed.
 Print Assumptions scan_number_is_lex_number.
 
